@@ -205,9 +205,9 @@ theorem toIso_unfold (us : Int) :
 
 theorem parseIso_PT (r0 r1 r2 r3 : List Char) (h m sec : Option Int)
     (h1 : optComp 'H' r0 = (h, r1)) (h2 : optComp 'M' r1 = (m, r2)) (h3 : optSec r2 = (sec, r3))
-    (he : atEnd r3 = true) :
+    (he : atEnd r3 = true) (hsome : (h.isNone && m.isNone && sec.isNone) = false) :
     parseIso ('P' :: 'T' :: r0) = some (h.getD 0 * 3600000000 + m.getD 0 * 60000000 + sec.getD 0) := by
-  simp [parseIso, h1, h2, h3, he]
+  simp [parseIso, h1, h2, h3, he, hsome]
 
 theorem optComp_compStr (u : Char) (neg : Bool) (n : Nat) (rest : List Char)
     (hu : isDigit u = false) (hmiss : optComp u rest = (none, rest)) :
@@ -332,7 +332,20 @@ theorem parseIso_toIso (us : Int) : parseIso (toIso us) = some us := by
     have m1' := optComp_compStr_miss 'H' 'M' neg minutes _ (by decide) (by decide) m1
     have e1 := optComp_compStr 'H' neg hours _ (by decide) m1'
     rw [List.append_assoc]
-    rw [parseIso_PT _ _ _ _ _ _ _ e1 e2 e3 rfl]
+    have hsome : ((if (hours != 0) = true then some (sgn neg hours) else none).isNone &&
+        (if (minutes != 0) = true then some (sgn neg minutes) else none).isNone &&
+        (if (seconds != 0 || usecs != 0) = true then
+          some (((seconds : Int) * 1000000 + usecs) * (if neg then -1 else 1)) else none).isNone) = false := by
+      by_cases c1 : (hours != 0) = true
+      · simp [c1]
+      · by_cases c2 : (minutes != 0) = true
+        · simp [c2]
+        · by_cases c3 : (seconds != 0 || usecs != 0) = true
+          · simp [c3]
+          · exfalso
+            apply hempty
+            simp [compStr, secStr, c1, c2, c3]
+    rw [parseIso_PT _ _ _ _ _ _ _ e1 e2 e3 rfl hsome]
     rw [getD_comp, getD_comp, getD_sec, hus, hsum]
     cases neg <;> simp only [sgn, Bool.false_eq_true, if_false, if_true] <;> (refine congrArg some ?_; omega)
 
@@ -380,5 +393,92 @@ theorem usFromPgText_toIso (us : Int) : usFromPgText (toIso us) = .ok us := by
 /-- `Duration.from_iso8601(d.to_iso8601()) == d` -/
 theorem fromIso_toIso (us : Int) : fromIso (toIso us) = .ok us := by
   unfold fromIso; rw [parseIso_toIso]
+
+/-! ### every accepted duration text contains a digit -/
+
+def NoDigit (l : List Char) : Prop := ∀ c ∈ l, isDigit c = false
+
+theorem NoDigit.dropWhile {l : List Char} (h : NoDigit l) (p : Char → Bool) : NoDigit (l.dropWhile p) :=
+  fun c hc => h c ((List.dropWhile_sublist p).subset hc)
+
+theorem NoDigit.reverse {l : List Char} (h : NoDigit l) : NoDigit l.reverse :=
+  fun c hc => h c (List.mem_reverse.mp hc)
+
+theorem NoDigit.optSign {l : List Char} (h : NoDigit l) : NoDigit (optSign l).2 := by
+  unfold Duration.optSign
+  split
+  · exact fun c hc => h c (by simp [hc])
+  · exact fun c hc => h c (by simp [hc])
+  · exact h
+
+theorem takeWhile_nil_of_noDigit {l : List Char} (h : NoDigit l) : l.takeWhile isDigit = [] := by
+  cases l with
+  | nil => rfl
+  | cons c r => simp [List.takeWhile, h c (by simp)]
+
+theorem signedDigits_none_of_noDigit {l : List Char} (h : NoDigit l) : signedDigits l = none := by
+  unfold signedDigits
+  simp [takeWhile_nil_of_noDigit h.optSign]
+
+theorem pyIntBody_none_of_noDigit {l : List Char} (h : NoDigit l) : pyIntBody false l = none := by
+  cases l with
+  | nil => simp [pyIntBody]
+  | cons c r => simp [pyIntBody, h c (by simp)]
+
+theorem pyInt_none_of_noDigit {l : List Char} (h : NoDigit l) : pyInt l = none := by
+  unfold pyInt
+  have ht : NoDigit ((l.dropWhile isCSpace).reverse.dropWhile isCSpace).reverse :=
+    (((h.dropWhile _).reverse).dropWhile _).reverse
+  simp only [pyIntBody_none_of_noDigit ht.optSign]
+
+theorem matchSimple_none_of_noDigit {l : List Char} (h : NoDigit l) : matchSimple l = none := by
+  unfold matchSimple
+  have := takeWhile_nil_of_noDigit (h.dropWhile isWs).optSign
+  simp [dropWs, this]
+
+theorem parseIso_none_of_noDigit {l : List Char} (h : NoDigit l) : parseIso l = none := by
+  unfold parseIso
+  split
+  · rename_i r0
+    have hr : NoDigit r0 := fun c hc => h c (by simp [hc])
+    have hH : optComp 'H' r0 = (none, r0) := by simp [optComp, signedDigits_none_of_noDigit hr]
+    have hM : optComp 'M' r0 = (none, r0) := by simp [optComp, signedDigits_none_of_noDigit hr]
+    have hS : optSec r0 = (none, r0) := by
+      unfold optSec
+      simp [takeWhile_nil_of_noDigit hr.optSign]
+    simp [hH, hM, hS]
+  · rfl
+
+theorem dropWhile_nil_all {p : Char → Bool} : ∀ (l : List Char), l.dropWhile p = [] → l.all p = true := by
+  intro l
+  induction l with
+  | nil => intro _; rfl
+  | cons c r ih =>
+    intro h
+    by_cases hc : p c = true
+    · simp [List.dropWhile, hc] at h; simp [hc, ih h]
+    · simp [List.dropWhile, hc] at h
+
+theorem parsePg_error_of_noDigit {l : List Char} (h : NoDigit l) : parsePg l = .error .invalid := by
+  unfold parsePg
+  by_cases hw : l.all isWs = true
+  · simp [hw]
+  · simp only [hw, Bool.false_eq_true, if_false]
+    unfold pgLoop
+    have hne : (dropWs l).isEmpty = false := by
+      cases hd : dropWs l with
+      | nil => exact absurd (dropWhile_nil_all l hd) hw
+      | cons _ _ => rfl
+    simp only [hne, Bool.false_eq_true, if_false]
+    have hsd : signedDigits (dropWs l) = none := signedDigits_none_of_noDigit (h.dropWhile isWs)
+    rw [hsd]
+
+/-- `Duration(text)` and `Duration.from_iso8601(text)` reject every text that
+    contains no digit (`''`, `'\n'`, `'PT'`, …) -/
+theorem noDigit_rejected (l : List Char) (h : NoDigit l) :
+    usFromPgText l = .error .invalid ∧ fromIso l = .error .invalid := by
+  unfold usFromPgText fromIso
+  simp [pyInt_none_of_noDigit h, matchSimple_none_of_noDigit h, parseIso_none_of_noDigit h,
+        parsePg_error_of_noDigit h]
 
 end EdbVerif.Duration
